@@ -58,6 +58,16 @@ func ruleSplitGuard(c *chk.Ctx) {
 			if b, ok := st.Field(i).Type().Underlying().(*types.Basic); ok && b.Kind() == types.Uint8 {
 				delim = st.Field(i)
 			}
+			// (or one level down, in a helper struct of this package holding the receiving half)
+			if inner, ok := st.Field(i).Type().Underlying().(*types.Struct); ok && delim == nil {
+				if nm, isNamed := types.Unalias(st.Field(i).Type()).(*types.Named); isNamed && nm.Obj().Pkg() == st.Field(i).Pkg() {
+					for j := 0; j < inner.NumFields(); j++ {
+						if b, ok := inner.Field(j).Type().Underlying().(*types.Basic); ok && b.Kind() == types.Uint8 {
+							delim = inner.Field(j)
+						}
+					}
+				}
+			}
 		}
 		if delim == nil {
 			continue
@@ -753,10 +763,30 @@ func effectiveResults(c *chk.Ctx, f *ssa.Function, idx, depth int) []resultAt {
 // its accumulation buffer, and predicates for "the accumulated line" and "the
 // read primitive's own error", all decided by provenance so that they hold
 // across private helpers.
+// bufKey names an accumulation buffer: a local bytes.Buffer, or a Buffer field
+// of a local struct (a "pending record" helper type).
+type bufKey struct {
+	al    *ssa.Alloc
+	field int // -1: the local itself
+}
+
+func bufferKey(c *chk.Ctx, v ssa.Value) (bufKey, bool) {
+	if fa, ok := v.(*ssa.FieldAddr); ok {
+		if al := soleAlloc(c, c.P.Canon(fa.X)); al != nil {
+			return bufKey{al, fa.Field}, true
+		}
+		return bufKey{}, false
+	}
+	if al := soleAlloc(c, v); al != nil {
+		return bufKey{al, -1}, true
+	}
+	return bufKey{}, false
+}
+
 type delimModel struct {
 	f       *ssa.Function
 	reads   []*ssa.Call
-	buf     *ssa.Alloc
+	buf     *bufKey
 	isAccum func(ssa.Value) bool
 	isErr   func(ssa.Value) bool
 }
@@ -781,22 +811,27 @@ func delimiterRecv(c *chk.Ctx) *delimModel {
 			return false
 		}
 		// the accumulation buffer: a local bytes.Buffer that receives every chunk read
-		written := map[*ssa.Alloc]int{}
+		written := map[bufKey]int{}
 		c.P.ExtCalls(f, func(ci ssa.CallInstruction) {
-			if ir.IsCallTo(ci.Common(), "(*bytes.Buffer).Write") && isRead(ir.NormCell(ci.Common().Args[1]), 0) {
-				if al := soleAlloc(c, ci.Common().Args[0]); al != nil {
-					written[al]++
+			if ir.IsCallTo(ci.Common(), "(*bytes.Buffer).Write") && (isRead(ir.NormCell(ci.Common().Args[1]), 0) || isRead(c.P.Canon(ci.Common().Args[1]), 0)) {
+				if k, ok := bufferKey(c, ci.Common().Args[0]); ok {
+					written[k]++
 				}
 			}
 		})
-		for al, n := range written {
+		for k, n := range written {
 			if n == len(m.reads) {
-				m.buf = al
+				kk := k
+				m.buf = &kk
 			}
 		}
 		isBytes := func(v ssa.Value) bool {
 			call, ok := v.(*ssa.Call)
-			return ok && m.buf != nil && ir.IsCallTo(&call.Call, "(*bytes.Buffer).Bytes") && soleAlloc(c, call.Call.Args[0]) == m.buf
+			if !ok || m.buf == nil || !ir.IsCallTo(&call.Call, "(*bytes.Buffer).Bytes") {
+				return false
+			}
+			k, isK := bufferKey(c, call.Call.Args[0])
+			return isK && k == *m.buf
 		}
 		// isDelimOnly: []byte{d} where d is the delimiter every read primitive is given
 		isDelimOnly := func(v ssa.Value) bool {
@@ -884,8 +919,8 @@ func ruleDelimiterRecv(c *chk.Ctx) {
 		c.Undecided("PAIR.accumulate", f, "accumulation buffer", f.Pos(), "no local buffer accumulating every ReadSlice chunk found")
 		return
 	}
-	emptyKnown := func(b *ssa.BasicBlock) bool {
-		for _, cd := range ir.CondsAt(b) {
+	emptyKnown := func(conds []ir.Cond) bool {
+		for _, cd := range conds {
 			x, y, op, ok := ir.Rel(cd)
 			if !ok {
 				continue
@@ -897,7 +932,7 @@ func ruleDelimiterRecv(c *chk.Ctx) {
 			isSubject := false
 			if sv, isLen := ir.LenOf(x); isLen && m.isAccum(sv) {
 				isSubject = true
-			} else if call, ok := x.(*ssa.Call); ok && ir.IsCallTo(&call.Call, "(*bytes.Buffer).Len") && call.Call.Args[0] == ssa.Value(m.buf) {
+			} else if call, ok := x.(*ssa.Call); ok && ir.IsCallTo(&call.Call, "(*bytes.Buffer).Len") && func() bool { k, isK := bufferKey(c, call.Call.Args[0]); return isK && k == *m.buf }() {
 				isSubject = true
 			}
 			if !isSubject {
@@ -909,11 +944,30 @@ func ruleDelimiterRecv(c *chk.Ctx) {
 		}
 		return false
 	}
+	// every way a return's data is produced: the value itself, or — at an exit shared by
+	// several outcomes — each value chosen into the returned variable, with the outcomes on its edge
+	type dataWay struct {
+		r     *ssa.Return
+		d     ssa.Value
+		conds []ir.Cond
+	}
+	var dways []dataWay
 	for _, r := range effectiveReturns(c, f, 0) {
 		d := ir.ReturnResult(r, 0)
+		if phi, isPhi := d.(*ssa.Phi); isPhi && phi.Block() == r.Block() {
+			for i, e := range phi.Edges {
+				pred := phi.Block().Preds[i]
+				dways = append(dways, dataWay{r, e, append(append([]ir.Cond{}, ir.CondsAt(pred)...), ir.EdgeConds(pred, phi.Block())...)})
+			}
+			continue
+		}
+		dways = append(dways, dataWay{r, d, ir.CondsAt(r.Block())})
+	}
+	for _, w := range dways {
+		r, d := w.r, w.d
 		switch {
 		case ir.IsNilConst(d):
-			c.Check(emptyKnown(r.Block()), "PAIR.accumulate", f, "nothing returned only when nothing was read", r.Pos(), "a nil record is returned only where the accumulated line is known to be empty", "Recv can return no data while bytes have been accumulated (on a path where the accumulated line is not known to be empty): a record would be silently dropped or shortened")
+			c.Check(emptyKnown(w.conds), "PAIR.accumulate", f, "nothing returned only when nothing was read", r.Pos(), "a nil record is returned only where the accumulated line is known to be empty", "Recv can return no data while bytes have been accumulated (on a path where the accumulated line is not known to be empty): a record would be silently dropped or shortened")
 		case m.isAccum(d):
 			c.Pass("PAIR.accumulate", f, "returned data is the accumulated line", r.Pos(), "data result derives from the accumulation buffer")
 		default:
